@@ -67,6 +67,11 @@ func RunSolveR1C(p *Prog, r *Report) {
 							}
 						}
 					}
+					// the comparison extracted into a helper of the same package that returns nil only behind it
+					if cal := c.Call.StaticCallee(); cal != nil && FuncPkg(cal) != nil && FuncPkg(cal).Path() == pkg && cal != fn && equalGuarded(p, cal) {
+						discharge[b.Index] = true
+						nEq++
+					}
 					if (strings.HasSuffix(name, "(*Element).Div") || strings.HasSuffix(name, "(*Element).Mul")) && len(c.Call.Args) > 0 && c.Call.Args[0] == wireAlloc {
 						discharge[b.Index] = true
 						nComp++
@@ -277,4 +282,66 @@ func infeasibleSwitchEdges(fn *ssa.Function) map[[2]int]bool {
 		}
 	}
 	return out
+}
+
+var equalGuardedMemo = map[*ssa.Function]bool{}
+
+// equalGuarded: h returns an error, contains a field-element Equal comparison, and every nil return of h lies behind
+// the success edge of such a comparison.
+func equalGuarded(p *Prog, h *ssa.Function) bool {
+	if v, ok := equalGuardedMemo[h]; ok {
+		return v
+	}
+	equalGuardedMemo[h] = false
+	res := h.Signature.Results()
+	if h.Blocks == nil || res.Len() != 1 || !isErrorType(res.At(0).Type()) {
+		return false
+	}
+	g := buildAccGraph(p, h, "error")
+	canAccept := g.backward(g.acceptingEnds())
+	edge := map[[2]int]bool{}
+	n := 0
+	for _, b := range h.Blocks {
+		for _, ins := range b.Instrs {
+			c, ok := ins.(*ssa.Call)
+			if !ok || !strings.HasSuffix(CalleeName(&c.Call), "(*Element).Equal") {
+				continue
+			}
+			if iff, ok := lastInstr(b).(*ssa.If); ok && condOrigin(iff.Cond) == ssa.Value(c) {
+				t0, t1 := g.edgeTo[b.Index][0], g.edgeTo[b.Index][1]
+				if canAccept[t0] != canAccept[t1] {
+					pass := t0
+					if !canAccept[t0] {
+						pass = t1
+					}
+					edge[[2]int{b.Index, pass}] = true
+					n++
+				}
+			}
+		}
+	}
+	if n == 0 {
+		return false
+	}
+	seen := make([]bool, len(g.nodes))
+	seen[0] = true
+	work := []int{0}
+	for len(work) > 0 {
+		x := work[len(work)-1]
+		work = work[:len(work)-1]
+		for _, y := range g.nodes[x].succs {
+			if seen[y] || edge[[2]int{x, y}] {
+				continue
+			}
+			seen[y] = true
+			work = append(work, y)
+		}
+	}
+	for _, a := range g.acceptingEnds() {
+		if seen[a] {
+			return false
+		}
+	}
+	equalGuardedMemo[h] = true
+	return true
 }
